@@ -168,7 +168,16 @@ fn case(t: &mut Tape, info: &mut CaseInfo) -> Result<(), String> {
     ns.push(total_units.saturating_mul(2) + 7);
     let mania_total_before_transform = len as u32;
     for n in ns {
-        let a = calc_for_mode(&c.d.clone().passed_objects(n), &c.map, c.target)?;
+        // (every other limit goes through the specification, whose setter order varies: passed_objects before or
+        // after mods)
+        let d_n = if n % 2 == 0 {
+            c.d.clone().passed_objects(n)
+        } else {
+            let mut ds = c.dspec.clone();
+            ds.passed = Some(n);
+            ds.build(c.target)
+        };
+        let a = calc_for_mode(&d_n, &c.map, c.target)?;
         info.comparisons += 1;
         let u = units(&a);
         let expect = n.min(total_units);
